@@ -91,22 +91,24 @@ Definition try_store_intermediate_key (e : env) (ik sk : nat) : M bool :=
           {| e_revoked := false; e_created := ko_created iko; e_key := enc;
              e_parent := Some {| km_id := sk_id e; km_created := ko_created sko |} |}.
 
+(* the part of createIntermediateKey that runs once the system key is in hand *)
+Definition create_ik_with_sk (e : env) (sk : nat) : M nat :=
+  ik <- generate_key_now e ;;
+  st <- try_ (try_store_intermediate_key e ik sk) ;;
+  match st with
+  | inr true => ret ik
+  | inr false =>
+      ck_close ik ;;;
+      r2 <- must_load_latest (ik_id e) ;;
+      intermediate_key_from_ekr e sk r2
+  | inl er => ck_close ik ;;; fail er
+  end.
+
 (* createIntermediateKey *)
 Definition create_intermediate_key (e : env) : M nat :=
   sk <- get_or_load_latest (en_sk e) (p_rci (en_pol e)) (p_expire (en_pol e)) (sk_id e)
                            (fun m => load_latest_or_create_system_key e (km_id m)) ;;
-  finally
-    (ik <- generate_key_now e ;;
-     st <- try_ (try_store_intermediate_key e ik sk) ;;
-     match st with
-     | inr true => ret ik
-     | inr false =>
-         ck_close ik ;;;
-         r2 <- must_load_latest (ik_id e) ;;
-         intermediate_key_from_ekr e sk r2
-     | inl er => ck_close ik ;;; fail er
-     end)
-    (cck_close sk).
+  finally (create_ik_with_sk e sk) (cck_close sk).
 
 (* getValidIntermediateKey: None = nil *)
 Definition get_valid_intermediate_key (e : env) (sk : nat) (r : ekr) : M (option nat) :=
